@@ -196,7 +196,8 @@ fn model_ans(m: &PartialModel, n: usize) -> u64 {
 }
 
 fn var_subset(mask: i64, n: usize) -> Vec<VarLabel> {
-    (0..n).filter(|v| (mask >> v) & 1 == 1).map(|v| VarLabel::new(v as u64)).collect()
+    // at most 6 query/decision variables: the optimisation queries branch over all their assignments
+    (0..n).filter(|v| (mask >> v) & 1 == 1).take(6).map(|v| VarLabel::new(v as u64)).collect()
 }
 
 /// BDD-only queries. Diagram-valued answers are returned as (signature, truth table).
@@ -231,8 +232,9 @@ fn bdd_query(b: &'static RobddBuilder<'static, AllIteTable<BPtr>>, p: BPtr, q: i
             }
         }
         Q_SMOOTH => {
-            // smooth over the first 1..=n variables of the order (the argument is the caller's choice)
-            let r = b.smooth(p, 1 + a1.unsigned_abs() as usize % n);
+            // smooth over the first 1..=min(n,12) variables of the order (smooth_helper recomputes the constant
+            // tail twice per level, i.e. it is exponential in the number of levels: cost control only)
+            let r = b.smooth(p, 1 + a1.unsigned_abs() as usize % n.min(12));
             (vec![wb::sig(r, &mut BTreeMap::new())], None)
         }
         Q_CONDITION => {
@@ -307,41 +309,74 @@ fn resolve(arg: i64, n: usize) -> usize {
     n - 1 - ((arg.unsigned_abs() as usize >> 1) % n)
 }
 
-/// how to build a copy of a handle's diagram in a brand-new builder
-#[derive(Clone)]
-enum BRecipe {
-    /// the canonical diagram of a function: rebuilt from its truth table
-    Tt(TT),
-    /// smooth(inner, n): not a reduced diagram, cannot be rebuilt from a truth table
-    Smooth(Box<BRecipe>, usize),
-    Child(Box<BRecipe>, bool),
-    Neg(Box<BRecipe>),
+/// how a pool entry was made (pool index = index into the construction history); in a brand-new builder the
+/// history can be replayed, and reduced diagrams over <= 7 variables are instead rebuilt from their truth table
+#[derive(Clone, Copy)]
+enum Setup {
+    Var(usize, bool),
+    Neg(usize),
+    And(usize, usize),
+    Or(usize, usize),
+    Xor(usize, usize),
+    Ite(usize, usize, usize),
+    Child(usize, bool),
+    Smooth(usize, usize),
+    Cond(usize, usize, bool),
+    CondModel(usize, i64, i64),
 }
 
-fn build_fresh(b: &'static RobddBuilder<'static, AllIteTable<BPtr>>, r: &BRecipe, order: &[usize], n: usize) -> BPtr {
-    match r {
-        BRecipe::Tt(t) => rebuild_bdd(b, *t, order, &mut BTreeMap::new()),
-        BRecipe::Smooth(x, k) => {
-            let p = build_fresh(b, x, order, n);
-            b.smooth(p, *k)
-        }
-        BRecipe::Child(x, hi) => {
-            let p = build_fresh(b, x, order, n);
-            if p.is_const() {
-                p
-            } else if *hi {
-                p.high()
+fn exec_setup(b: &'static RobddBuilder<'static, AllIteTable<BPtr>>, st: &Setup, pool: &[BPtr], n: usize) -> BPtr {
+    match *st {
+        Setup::Var(v, pol) => b.var(VarLabel::new(v as u64), pol),
+        Setup::Neg(i) => b.negate(pool[i]),
+        Setup::And(i, j) => b.and(pool[i], pool[j]),
+        Setup::Or(i, j) => b.or(pool[i], pool[j]),
+        Setup::Xor(i, j) => b.xor(pool[i], pool[j]),
+        Setup::Ite(i, j, k) => b.ite(pool[i], pool[j], pool[k]),
+        Setup::Child(i, hi) => {
+            let h = pool[i];
+            if h.is_const() {
+                h
+            } else if hi {
+                h.high()
             } else {
-                p.low()
+                h.low()
             }
         }
-        BRecipe::Neg(x) => build_fresh(b, x, order, n).neg(),
+        Setup::Smooth(i, k) => b.smooth(pool[i], k),
+        Setup::Cond(i, v, val) => b.condition(pool[i], VarLabel::new(v as u64), val),
+        Setup::CondModel(i, a1, a2) => {
+            let asg: Vec<Option<bool>> = (0..n).map(|v| if (a1 >> v) & 1 == 1 { Some((a2 >> v) & 1 == 1) } else { None }).collect();
+            b.condition_model(pool[i], &PartialModel::from_assignments(&asg))
+        }
     }
 }
 
+/// the copy of pool entry `h` in a brand-new builder
+fn build_fresh(b: &'static RobddBuilder<'static, AllIteTable<BPtr>>, setup: &[Setup], plain: &[bool], tts: &[TT], h: usize, order: &[usize], n: usize) -> BPtr {
+    if n <= tt::MAXV && plain[h] {
+        // a reduced diagram is determined by its function: rebuild it by Shannon expansion
+        return rebuild_bdd(b, tts[h], order, &mut BTreeMap::new());
+    }
+    // otherwise replay the construction history (no query has run in this builder)
+    let mut pool: Vec<BPtr> = Vec::with_capacity(h + 1);
+    for st in setup.iter().take(h + 1) {
+        let p = exec_setup(b, st, &pool, n);
+        pool.push(p);
+    }
+    pool[h]
+}
+
 fn run_bdd(plan: &Plan, ctx: &mut Ctx) -> R {
-    let n = plan.get("nvars").clamp(1, 7) as usize;
-    let perm = perm_from_index(n, plan.get("order_idx") as u64);
+    let n = plan.get("nvars").clamp(1, 24) as usize;
+    let small = n <= tt::MAXV;
+    let perm: Vec<usize> = if small {
+        perm_from_index(n, plan.get("order_idx") as u64)
+    } else {
+        let mut p: Vec<usize> = (0..n).collect();
+        Rng::new(plan.get("order_idx") as u64 ^ 0x0bde).shuffle(&mut p);
+        p
+    };
     let labels: Vec<VarLabel> = perm.iter().map(|v| VarLabel::new(*v as u64)).collect();
     let order = VarOrder::new(&labels);
     let b: &'static RobddBuilder<'static, AllIteTable<BPtr>> = Box::leak(Box::new(RobddBuilder::new(order.clone())));
@@ -349,10 +384,13 @@ fn run_bdd(plan: &Plan, ctx: &mut Ctx) -> R {
     let cached_map = create_semantic_hash_map::<{ primes::U64_LARGEST }>(n);
     let mut pool: Vec<BPtr> = Vec::new();
     let mut tts: Vec<TT> = Vec::new();
-    let mut recipes: Vec<BRecipe> = Vec::new();
+    let mut setup: Vec<Setup> = Vec::new();
+    // reduced canonical diagram (not derived from a smoothed one)?
+    let mut plain: Vec<bool> = Vec::new();
     let mut nq = 0u64;
     let mut kinds_seen = 0u32;
     let mut smoothed_queries = 0u64;
+    let tt_of = |p: BPtr| if small { wb::walk_raw(p, &mut BTreeMap::new()) } else { 0 };
 
     for (i, op) in plan.ops.iter().enumerate() {
         ctx.step = i;
@@ -363,61 +401,36 @@ fn run_bdd(plan: &Plan, ctx: &mut Ctx) -> R {
         // and/or/xor/ite are only issued on reduced diagrams (a smoothed diagram is not one)
         if matches!(kind, S_AND | S_OR | S_XOR | S_ITE) {
             let nops = if kind == S_ITE { 3 } else { 2 };
-            if (0..nops).any(|j| !matches!(recipes[resolve(op.a[j], np)], BRecipe::Tt(_))) {
+            if (0..nops).any(|j| !plain[resolve(op.a[j], np)]) {
                 kind = S_CHILD;
             }
         }
         match kind {
             S_VAR | S_NEG | S_AND | S_OR | S_XOR | S_ITE | S_CHILD => {
                 let g = |j: usize| resolve(op.a[j], np);
-                let (p, t, r) = match kind {
-                    S_VAR => {
-                        let v = op.a[0].unsigned_abs() as usize % n;
-                        let pol = op.a[3] & 1 == 1;
-                        (b.var(VarLabel::new(v as u64), pol), tt::lit(v, pol), BRecipe::Tt(tt::lit(v, pol)))
-                    }
-                    S_NEG => {
-                        let r = match &recipes[g(0)] {
-                            BRecipe::Tt(t) => BRecipe::Tt(!*t),
-                            other => BRecipe::Neg(Box::new(other.clone())),
-                        };
-                        (b.negate(pool[g(0)]), !tts[g(0)], r)
-                    }
-                    S_AND => (b.and(pool[g(0)], pool[g(1)]), tts[g(0)] & tts[g(1)], BRecipe::Tt(tts[g(0)] & tts[g(1)])),
-                    S_OR => (b.or(pool[g(0)], pool[g(1)]), tts[g(0)] | tts[g(1)], BRecipe::Tt(tts[g(0)] | tts[g(1)])),
-                    S_XOR => (b.xor(pool[g(0)], pool[g(1)]), tts[g(0)] ^ tts[g(1)], BRecipe::Tt(tts[g(0)] ^ tts[g(1)])),
-                    S_ITE => {
-                        let t = tt::ite(tts[g(0)], tts[g(1)], tts[g(2)]);
-                        (b.ite(pool[g(0)], pool[g(1)], pool[g(2)]), t, BRecipe::Tt(t))
-                    }
-                    _ => {
-                        // a sub-diagram of an existing diagram (shares all its nodes)
-                        let h = pool[g(0)];
-                        if h.is_const() {
-                            (h, tts[g(0)], recipes[g(0)].clone())
-                        } else {
-                            let hi = op.a[3] & 1 == 1;
-                            let c = if hi { h.high() } else { h.low() };
-                            let t = wb::walk_raw(c, &mut BTreeMap::new());
-                            let r = match &recipes[g(0)] {
-                                BRecipe::Tt(_) => BRecipe::Tt(t),
-                                other => BRecipe::Child(Box::new(other.clone()), hi),
-                            };
-                            (c, t, r)
-                        }
-                    }
+                let (st, pl) = match kind {
+                    S_VAR => (Setup::Var(op.a[0].unsigned_abs() as usize % n, op.a[3] & 1 == 1), true),
+                    S_NEG => (Setup::Neg(g(0)), plain[g(0)]),
+                    S_AND => (Setup::And(g(0), g(1)), true),
+                    S_OR => (Setup::Or(g(0), g(1)), true),
+                    S_XOR => (Setup::Xor(g(0), g(1)), true),
+                    S_ITE => (Setup::Ite(g(0), g(1), g(2)), true),
+                    // a sub-diagram of an existing diagram (shares all its nodes)
+                    _ => (Setup::Child(g(0), op.a[3] & 1 == 1), plain[g(0)]),
                 };
+                let p = exec_setup(b, &st, &pool, n);
+                let t = tt_of(p);
                 pool.push(p);
                 tts.push(t);
-                recipes.push(r);
+                setup.push(st);
+                plain.push(pl);
                 ctx.ev(100 + kind as u64, &[wb::addr(p) as u64, p.is_neg() as u64, tt::lo(t), tt::hi(t)]);
                 ctx.note(|| format!("[{i}] c{} h{} = setup#{kind} -> {}{:#x} tt={}", op.c, pool.len() - 1, if p.is_neg() { "~" } else { "" }, wb::addr(p), tt::show(t)));
             }
             Q => {
                 let mut q = op.a[0].rem_euclid(NQ as i64);
                 let h = resolve(op.a[1], np);
-                let plain = matches!(recipes[h], BRecipe::Tt(_));
-                if !plain {
+                if !plain[h] {
                     // smoothed (non-reduced) diagrams: numeric queries only
                     if matches!(q, Q_SMOOTH | Q_CONDITION | Q_CONDITION_MODEL) {
                         q = Q_WMC_REAL;
@@ -435,36 +448,39 @@ fn run_bdd(plan: &Plan, ctx: &mut Ctx) -> R {
                 rsdd::verif::set_knobs(Some(64), None);
                 let was = rsdd::verif::set_faults_enabled(false);
                 let fresh: &'static RobddBuilder<'static, AllIteTable<BPtr>> = Box::leak(Box::new(RobddBuilder::new(order.clone())));
-                let fp = build_fresh(fresh, &recipes[h], &perm, n);
+                let fp = build_fresh(fresh, &setup, &plain, &tts, h, &perm, n);
                 let fresh_map = create_semantic_hash_map::<{ primes::U64_LARGEST }>(n);
                 let (want, fdiag) = bdd_query(fresh, fp, q, a1, a2, &w, n, &fresh_map);
                 rsdd::verif::set_faults_enabled(was);
                 let tc = plan.get_or("table_cap", 0);
                 rsdd::verif::set_knobs(if tc == 0 { None } else { Some(tc as usize) }, None);
                 ctx.ev(100 + Q as u64, &[q as u64, h as u64, got.first().copied().unwrap_or(0), got.len() as u64]);
-                ctx.note(|| format!("[{i}] c{} {}(h{h}{}, {a1}, {a2}) = {:x?} (fresh copy: {:x?})", op.c, QNAMES[q as usize], if plain { "" } else { " [smoothed]" }, got, want));
+                ctx.note(|| format!("[{i}] c{} {}(h{h}{}, {a1}, {a2}) = {:x?} (fresh copy: {:x?})", op.c, QNAMES[q as usize], if plain[h] { "" } else { " [smoothed]" }, got, want));
                 ctx.check("C10", "query-answer-differs-from-fresh-copy", got == want, || {
                     format!("{}(h{h}) on the shared builder = {:x?}; the same query on a freshly built copy of that diagram = {:x?}", QNAMES[q as usize], got, want)
                 })?;
                 if q == Q_SMOOTH {
                     // the smoothed diagram joins the pool: later queries run on it and on its sub-diagrams
-                    let k = 1 + a1.unsigned_abs() as usize % n;
-                    let r = b.smooth(p, k);
+                    let st = Setup::Smooth(h, 1 + a1.unsigned_abs() as usize % n.min(12));
+                    let r = exec_setup(b, &st, &pool, n);
                     scratch_monitor_bdd(ctx, b, "smooth")?;
-                    let t = wb::walk_raw(r, &mut BTreeMap::new());
                     pool.push(r);
-                    tts.push(t);
-                    recipes.push(BRecipe::Smooth(Box::new(recipes[h].clone()), k));
+                    tts.push(tt_of(r));
+                    setup.push(st);
+                    plain.push(false);
                 }
                 if let (Some(d), Some(fd)) = (diag, fdiag) {
-                    let (t1, t2) = (wb::walk_raw(d, &mut BTreeMap::new()), wb::walk_raw(fd, &mut BTreeMap::new()));
-                    ctx.check("C10", "query-answer-differs-from-fresh-copy", t1 == t2, || {
-                        format!("{}(h{h}) returns a diagram denoting {} on the shared builder and {} on a fresh copy", QNAMES[q as usize], tt::show(t1), tt::show(t2))
-                    })?;
+                    if small {
+                        let (t1, t2) = (wb::walk_raw(d, &mut BTreeMap::new()), wb::walk_raw(fd, &mut BTreeMap::new()));
+                        ctx.check("C10", "query-answer-differs-from-fresh-copy", t1 == t2, || {
+                            format!("{}(h{h}) returns a diagram denoting {} on the shared builder and {} on a fresh copy", QNAMES[q as usize], tt::show(t1), tt::show(t2))
+                        })?;
+                    }
                     // conditioned diagrams join the pool: later queries run on them too
                     pool.push(d);
-                    tts.push(t1);
-                    recipes.push(BRecipe::Tt(t1));
+                    tts.push(tt_of(d));
+                    setup.push(if q == Q_CONDITION { Setup::Cond(h, a1.unsigned_abs() as usize % n, a2 & 1 == 1) } else { Setup::CondModel(h, a1, a2) });
+                    plain.push(true);
                 }
             }
             _ => {}
@@ -472,6 +488,7 @@ fn run_bdd(plan: &Plan, ctx: &mut Ctx) -> R {
     }
     ctx.count("queries", nq);
     ctx.count("queries-on-smoothed-diagrams", smoothed_queries);
+    ctx.count("runs-with-more-than-7-variables", (!small) as u64);
     ctx.nontrivial = nq >= 2 && kinds_seen.count_ones() >= 2 && pool.iter().any(|p| !p.is_const());
     ctx.states.push(kinds_seen as u64);
     Ok(())
@@ -724,7 +741,8 @@ impl World for QueryWorld {
         let mut p = Rng::stream(run_seed, "placement");
         let variant = c.weighted(&[5, 3, 2]) as i64; // 0 bdd, 1 sdd, 2 top-down
         cfg.insert("variant".into(), variant);
-        let n = if variant == 2 { 1 + c.below(6) } else { 1 + c.below(7) };
+        // the BDD variant goes up to 24 variables in one run out of five (copies are then made by replaying the history)
+        let n = if variant == 2 { 1 + c.below(6) } else if variant == 0 && c.below(5) == 0 { 8 + c.below(17) } else { 1 + c.below(7) };
         cfg.insert("nvars".into(), n as i64);
         cfg.insert("order_idx".into(), c.below(5040) as i64);
         cfg.insert("vt_shape".into(), c.below(6) as i64);
@@ -766,7 +784,7 @@ impl World for QueryWorld {
             } else {
                 let q = o.weighted(&qw) as i64;
                 // repeat immediately / on the complement / on a sub-diagram come from the operand distribution
-                ops.push(Op { c: caller, k: Q, a: [q, gen_operand(&mut o), o.below(128) as i64, o.below(128) as i64] });
+                ops.push(Op { c: caller, k: Q, a: [q, gen_operand(&mut o), (o.next() >> 40) as i64, (o.next() >> 40) as i64] });
                 if o.below(5) == 0 {
                     let last = ops.last().unwrap().clone();
                     ops.push(last);
